@@ -50,9 +50,10 @@ MANIFEST = dict(
          "its owner exactly when the pool is unencapsulated or cross-subnet with the owner in the local subnet, otherwise the "
          "pool's tunnel route; local non-/32 blocks are blackholed and a blackhole is never a local workload's own address; the "
          "managers' pending maps are a function of the route set for every message stream; flush() is independent of the dirty "
-         "set's iteration order; order independence of the incremental resolver: refuted for the pinned code with replayed "
-         "witnesses (known finding, fix patch), proved for the repaired variant along every history of node and pool updates "
-         "(partial: block/workload update steps and trie-as-function-of-state are not proved).  Correspondence run of model "
+         "set's iteration order; c43_order_independent: after ANY history of pool, block, node and workload updates (block keys "
+         "never overlapping) the route set held downstream is the function of the final datastore state (invariant: no stale "
+         "routes + trie / node table / allPools / blockToRoutes / workloadIDToCIDRs are images of the datastore state); the "
+         "originally pinned code is refuted with replayed witnesses (fixed in /repo by b294575).  Correspondence run of model "
          "and spec oracle against the real resolver and the real vxlan/ipip/noencap managers on generated histories.",
     note="Trusted: Coq kernel; hand-written model tied to the code only by the correspondence run; Go driver + shim.",
 )
